@@ -488,6 +488,46 @@ func ruleC07R3(c *Ctx) {
 				}
 			})
 		}
+		// or through a helper given the address of the destination's field and the source's field: orBool(&a.f, b.f)
+		if !ok {
+			core.EachInstr(mergeFn, func(i ssa.Instruction) {
+				call, isCall := i.(*ssa.Call)
+				if !isCall {
+					return
+				}
+				callee := call.Call.StaticCallee()
+				if callee == nil || !c.P.InPkg(callee) || callee == mergeFn || len(callee.Params) != len(call.Call.Args) {
+					return
+				}
+				for pi, a := range call.Call.Args {
+					fa, isFA := a.(*ssa.FieldAddr)
+					if !isFA || fa.Field != k || !isParamOrLoad(fa.X, dst) {
+						continue
+					}
+					for vj, b := range call.Call.Args {
+						if vj == pi || !dependsOn(b, srcLoads, 6) {
+							continue
+						}
+						pv := []ssa.Value{callee.Params[vj]}
+						cfi := core.Info(callee)
+						core.EachInstr(callee, func(k2 ssa.Instruction) {
+							st2, isSt := k2.(*ssa.Store)
+							if !isSt || st2.Addr != ssa.Value(callee.Params[pi]) {
+								return
+							}
+							if dependsOn(st2.Val, pv, 6) {
+								ok = true
+							}
+							for _, br := range cfi.DomGuards(st2.Block()) {
+								if cond, _ := br.Cond(); cond != nil && dependsOn(cond, pv, 6) {
+									ok = true
+								}
+							}
+						})
+					}
+				}
+			})
+		}
 		c.R.Check(ok, rule, "merge:"+f.Name(), c.P.Pos(f.Pos()), "the destination's "+f.Name()+" is updated from the source's "+f.Name(),
 			"merge does not propagate annotations field "+f.Name()+" from the source record to the destination: evaluations recorded by an in-place subschema would be forgotten")
 	}
@@ -1305,6 +1345,47 @@ func ruleC07Monotone(c *Ctx) {
 		core.EachInstr(fn, func(i ssa.Instruction) {
 			switch x := i.(type) {
 			case *ssa.Store:
+				// a helper that updates a field through a pointer to it: orBool(&a.allItems, v), maxInt(&a.endIndex, v)
+				if pp, isParam := x.Addr.(*ssa.Parameter); isParam {
+					var fields []string
+					for _, a := range c.P.ArgsFor(pp) {
+						if fa, ok := a.(*ssa.FieldAddr); ok && c.isPkgNamed(fa.X.Type(), "annotations") {
+							fields = append(fields, core.StructField(fa.X.Type(), fa.Field).Name())
+						}
+					}
+					if len(fields) == 0 {
+						return
+					}
+					n += len(fields)
+					construct := core.FuncName(fn) + ":*" + pp.Name()
+					et := pp.Type().Underlying().(*types.Pointer).Elem()
+					if isBoolType(et) {
+						k, isConst := x.Val.(*ssa.Const)
+						c.R.Check(isConst && k.Value != nil && k.Value.String() == "true", rule, construct, c.pos(x), "the flag is only ever set to true", fmt.Sprintf("the annotation flags %v are assigned, through this helper, something other than the constant true", fields))
+						return
+					}
+					raised := false
+					for _, br := range fi.DomGuards(x.Block()) {
+						cond, pol := br.Cond()
+						bo, ok := cond.(*ssa.BinOp)
+						if !ok {
+							continue
+						}
+						isOld := func(v ssa.Value) bool {
+							ld, ok := v.(*ssa.UnOp)
+							return ok && ld.Op == token.MUL && ld.X == ssa.Value(pp)
+						}
+						isNew := func(v ssa.Value) bool { return v == x.Val }
+						switch {
+						case isNew(bo.X) && isOld(bo.Y) && ((bo.Op == token.GTR && pol) || (bo.Op == token.LEQ && !pol)):
+							raised = true
+						case isOld(bo.X) && isNew(bo.Y) && ((bo.Op == token.LSS && pol) || (bo.Op == token.GEQ && !pol)):
+							raised = true
+						}
+					}
+					c.R.Check(raised, rule, construct, c.pos(x), "the high-water mark is stored only when the new value exceeds the old one", fmt.Sprintf("the annotation fields %v are assigned through this helper without a guard `new > old`", fields))
+					return
+				}
 				fa, ok := x.Addr.(*ssa.FieldAddr)
 				if !ok || !c.isPkgNamed(fa.X.Type(), "annotations") {
 					return
